@@ -71,6 +71,7 @@ type VC struct {
 	heap0shared map[string]Term
 	globalsUsed map[string]bool
 	canaries []*Obligation
+	inLoopDepth int
 	panicEscapes int
 	explicitTargs []types.Type
 	lemmaPkg string
@@ -123,6 +124,7 @@ type State struct {
 	panicking bool
 	ghostLocals map[string]Val
 	inQuant int
+	inFrameAssume bool
 	unwinding bool
 	curChanElem types.Type
 	dyn    map[string]dynInfo // interface value term -> concrete value it was made from (for devirtualisation)
@@ -253,7 +255,18 @@ func (st *State) get(key string) Term {
 	}
 	if i := strings.Index(key, "<"); i > 0 && st.nonnil["pendinghavocprefix:"+key[:i+1]] && !st.nonnil["seen:"+key] {
 		st.nonnil["seen:"+key] = true
-		return st.havocKey(key)
+		t := st.havocKey(key)
+		if st.nonnil["pendingloopprefix:"+key[:i+1]] {
+			st.assumeFrameFor(key)
+		}
+		return t
+	}
+	if st.nonnil["pendingloophavoc:"+key] {
+		delete(st.nonnil, "pendingloophavoc:"+key)
+		delete(st.nonnil, "pendinghavoc:"+key)
+		t := st.havocKey(key)
+		st.assumeFrameFor(key)
+		return t
 	}
 	if st.nonnil["pendinghavoc:"+key] {
 		delete(st.nonnil, "pendinghavoc:"+key)
@@ -792,4 +805,19 @@ func sortedKeys[V any](m map[string]V) []string {
 	}
 	sort.Strings(ks)
 	return ks
+}
+
+// assumeFrameFor: a key havocked before its first use (loop entry) still satisfies the function's frame condition, which is an
+// implicit loop invariant (asserted at loop entry and at every back edge).
+func (st *State) assumeFrameFor(key string) {
+	if st.fr == nil || st.vc.fc == nil || st.inFrameAssume {
+		return
+	}
+	st.inFrameAssume = true
+	defer func() { st.inFrameAssume = false }()
+	for _, g := range st.frameGoals(st.topNames(), map[string]bool{key: true}) {
+		if g.label != allocKey {
+			st.assume(g.goal)
+		}
+	}
 }
